@@ -1,5 +1,5 @@
 """C04 -- a committed path serves the value of the latest evaluation that kept it."""
-from contracts import api, api_stages
+from contracts import api, api_stages, structures_utils
 from ._api_common import TRUSTED_API, owner, _AnyApiClause
 
 ID = "C04"
@@ -14,4 +14,4 @@ owns = owner("C04")
 
 
 def specs():
-    return [c() for c in api.SPECS]
+    return [c() for c in api.SPECS] + [c() for c in structures_utils.SPECS]
